@@ -57,6 +57,11 @@ def ctl2(a):
 def ctl(a):
     """Control docstring about L{{func}} and C{{a}}.
 
+    Section
+    =======
+
+    Text of a section whose title other docstrings use as well.
+
     @param a: the a
     @return: nothing
     """
@@ -234,7 +239,7 @@ def _judge(res: core.Res, s: str, fmt: str, ptypes: bool) -> None:
         # a docstring that opens with a line of plain words shows at least those words, whatever else happens to it
         first = clean.split('\n')[0].strip() if clean else ''
         second = clean.split('\n')[1] if clean and '\n' in clean else ''
-        if fmt != 'plaintext' and re.fullmatch(r'[A-Za-z][A-Za-z ,]{3,}\.?', first) and obj.docstring and second.strip() == '' and not first.endswith(':'):
+        if fmt != 'plaintext' and re.fullmatch(r'[A-Za-z][A-Za-z ,]{3,}\.?', first) and (obj.docstring or kind == 'prop') and second.strip() == '' and not first.endswith(':'):
             res.c('plain_first_lines_checked')
             visible = re.sub(r'\s+', ' ', html_mod.unescape(re.sub(r'<[^>]*>', ' ', outs.get('docstring', ''))))
             if not all(wd in visible for wd in re.findall(r'[A-Za-z]{4,}', first)):
